@@ -1116,4 +1116,101 @@ theorem offersB_of_offers (v : Bytes) (e : Enc) (h : Offers v e) : offersB v e =
 theorem offersB_iff (v : Bytes) (e : Enc) : offersB v e = true ↔ Offers v e :=
   ⟨offers_of_offersB v e, offersB_of_offers v e⟩
 
+/-- every response with `grpc-status` in the trailers announces exactly the chosen encoding -/
+theorem serve_enc_trl (accS sndS : Slots) (req : SrvReq) (h : Handler) (hmd : h.forges = false) :
+    (serve accS sndS req h).stWhere = .trl →
+      (serve accS sndS req h).enc =
+        ((fromAcceptEncodingHeader req.accVals sndS).map name).toList := by
+  have key : ∀ saw, (respond req.shape (fromAcceptEncodingHeader req.accVals sndS) h saw).stWhere = .trl →
+      (respond req.shape (fromAcceptEncodingHeader req.accVals sndS) h saw).enc
+        = ((fromAcceptEncodingHeader req.accVals sndS).map name).toList := by
+    intro saw
+    cases h with
+    | fail c => intro hw; simp [respond, errorResponse] at hw
+    | reply n d md =>
+      have : md = [] := by simpa [Handler.forges] using hmd
+      subst this
+      intro _
+      cases fromAcceptEncodingHeader req.accVals sndS <;> simp [respond, asStr_eq_name]
+  rcases serve_cases accS sndS req h with ⟨v, _, ho⟩ |
+    ⟨neg, c, k, _, _, _, ho⟩ | ⟨neg, c, k, _, _, _, ho⟩ | ⟨neg, f, _, _, _, ho⟩ | ⟨neg, _, _, _, ho⟩ <;>
+    rw [ho]
+  · intro hw; simp [errorResponse] at hw
+  · intro hw; simp [errorResponse] at hw
+  · intro hw; simp [errorResponse] at hw
+  · exact key _
+  · exact key _
+
+/-! ## H. what the oracle's predicates say -/
+
+theorem recv_refuse_iff (enabled : List Enc) (vals : List Bytes) :
+    recv enabled vals = .refuse ↔
+      ∃ v rest, vals = v :: rest ∧ v ≠ identity ∧ ∀ e, enabled.contains e = true → v ≠ name e := by
+  cases vals with
+  | nil => simp [recv]
+  | cons v rest =>
+    have i1 : name .gzip ≠ identity := by decide
+    have i2 : name .deflate ≠ identity := by decide
+    have i3 : name .zstd ≠ identity := by decide
+    have n1 : name .deflate ≠ name .gzip := by decide
+    have n2 : name .zstd ≠ name .gzip := by decide
+    have n3 : name .zstd ≠ name .deflate := by decide
+    unfold recv
+    simp only [nameOf_eq, beq_iff_eq, List.cons.injEq, List.contains_eq_mem, decide_eq_true_eq]
+    constructor
+    · intro h
+      refine ⟨v, rest, ⟨rfl, rfl⟩, ?_⟩
+      by_cases c0 : v = identity
+      · simp [c0] at h
+      · refine ⟨c0, ?_⟩
+        intro e he hv
+        subst hv
+        cases e <;> simp_all
+    · rintro ⟨v', rest', ⟨rfl, rfl⟩, c0, hall⟩
+      simp only [c0, if_false]
+      by_cases c1 : v = name .gzip
+      · have := hall .gzip; simp_all
+      · by_cases c2 : v = name .deflate
+        · have := hall .deflate; simp_all
+        · by_cases c3 : v = name .zstd
+          · have := hall .zstd; simp_all
+          · simp [c1, c2, c3]
+
+theorem acceptListOk_meaning (enabled : List Enc) (vals : List Bytes)
+    (h : acceptListOk enabled vals = true) :
+    ∃ v, vals = [v] ∧ (∀ e, offersB v e = true ↔ enabled.contains e = true) ∧
+      ∀ t ∈ tokens v, t = identity ∨ ∃ e, t = name e := by
+  unfold acceptListOk at h
+  split at h
+  · rename_i v
+    simp only [Bool.and_eq_true, List.all_eq_true] at h
+    obtain ⟨h1, h2⟩ := h
+    refine ⟨v, rfl, ?_, ?_⟩
+    · intro e
+      constructor
+      · intro ho
+        have hm : name e ∈ tokens v := by simpa [offersB] using ho
+        have := h1 _ hm
+        have hn : nameOf? (name e) = some e := by rw [← asStr_eq_name]; exact nameOf_asStr e
+        have hi : (name e == identity) = false := by cases e <;> decide
+        simpa [hn, hi] using this
+      · intro he
+        have := h2 e (by simpa using he)
+        simpa [offersB] using this
+    · intro t ht
+      have := h1 t ht
+      simp only [Bool.or_eq_true, beq_iff_eq] at this
+      rcases this with h | h
+      · exact Or.inl h
+      · right
+        rw [nameOf_eq] at h
+        by_cases c1 : t = name .gzip
+        · exact ⟨_, c1⟩
+        · by_cases c2 : t = name .deflate
+          · exact ⟨_, c2⟩
+          · by_cases c3 : t = name .zstd
+            · exact ⟨_, c3⟩
+            · simp [c1, c2, c3] at h
+  · cases h
+
 end Compression
